@@ -246,12 +246,10 @@ theorem encFaiLine_utf8 (r : FaiRecord) (hu : validUtf8 r.name = true) :
     · simp only [List.mem_cons, List.not_mem_nil, or_false] at hf
       rcases hf with rfl | rfl | rfl | rfl <;> exact digit_ascii b (printNat_digits _ b hbf)
 
-theorem parseFaiLine_rt (r : FaiRecord) (h : r.WF) (hu : validUtf8 r.name = true) :
+theorem parseFaiLine_rt (r : FaiRecord) (h : r.WF) :
     parseFaiLine (encFaiLine r) = .ok r := by
   obtain ⟨h1, h2, h3, h4, h5, h6, h7, h8⟩ := h
   unfold parseFaiLine
-  rw [encFaiLine_utf8 r hu]
-  simp only [not_true_eq_false, if_false]
   have hne : encFaiLine r ≠ [] := by
     obtain ⟨x, d, e, _⟩ := encFaiLine_cr r
     rw [e]; simp
@@ -267,11 +265,11 @@ theorem parseFaiLine_rt (r : FaiRecord) (h : r.WF) (hu : validUtf8 r.name = true
   rw [parseU64_print _ h3, parseU64_print _ h4, parseNonZero_print _ h5 h6,
     parseNonZero_print _ h7 h8]
 
-theorem readFai_rt (ix : List FaiRecord) (h : ∀ r ∈ ix, r.WF ∧ validUtf8 r.name = true) :
+theorem readFai_rt (ix : List FaiRecord) (h : ∀ r ∈ ix, r.WF) :
     readFai (encFai ix) = .ok ix := by
   unfold readFai encFai
-  exact readLines_rt parseFaiLine encFaiLine ix (fun r hr => encFaiLine_lf r (h r hr).1)
-    (fun r _ => encFaiLine_cr r) (fun r hr => parseFaiLine_rt r (h r hr).1 (h r hr).2)
+  exact readLines_rt parseFaiLine encFaiLine ix (fun r hr => encFaiLine_lf r (h r hr))
+    (fun r _ => encFaiLine_cr r) (fun r hr => parseFaiLine_rt r (h r hr))
 
 /-! ### crai -/
 
